@@ -214,12 +214,39 @@ def damaged_models(rng, quick):
             m = gbase(); m["cond"] = dict(m["cond"]); m["cond"].update(over)
             if dmg is not None: m["meshes"][dmg] = folded[dmg]
             out.append(("cond:%s:%s" % (pn, "clean" if dmg is None else "mesh%d-folded" % dmg), m, None, None, dict(self=1 if dmg is None else 0, hm=1, only_self=dmg)))
+    # every declaration order class of the domains x dipoles in every compartment (brain / skull / scalp / air)
+    v0, t0 = models.icosphere(lvl); fn = [sum(v0[a][c] for a in t0[0]) / 3 for c in range(3)]; fl = math.sqrt(sum(c * c for c in fn)); fn = [c / fl for c in fn]
+    along = lambda r_: tuple(r_ * c for c in fn)            # along a face normal: shells are met at 0.795 x their radius
+    brain = [(0.1, 0.05, 0.0), (-0.2, 0.1, 0.1), along(0.3)]
+    where = {"brain-only": [], "one-in-skull": [along(0.5)], "one-in-scalp": [along(0.7)], "one-in-air": [along(1.5)], "skull-first-row": None}
+    orders = {"air-last": (0, 1, 2, 3), "air-first": (3, 0, 1, 2), "air-second": (0, 3, 1, 2), "air-first-brain-last": (3, 2, 1, 0), "brain-last": (1, 2, 3, 0)}
+    for on, order in orders.items():
+        for wn, extra_rows in where.items():
+            rows = ([along(0.5)] + brain) if extra_rows is None else (brain + extra_rows)
+            out.append(("dipoles:%s:%s" % (on, wn), base(), None, rows, dict(self=1, inner=1 if wn == "brain-only" else 0, diponly=1, order=order)))
+    # non-adjacent shells crossing (a shell shrunk / grown / translated past TWO neighbours without touching the one in
+    # between), and adjacent shells crossing through a compartment that may be non-conductive: all conductivity patterns
+    def moved(k, f):
+        m = gbase(); n, vs, ts = m["meshes"][k]; m["meshes"][k] = (n, [f(v) for v in vs], ts); return m
+    crossings = {"outer-shrunk-onto-inner": moved(2, lambda v: (v[0] * 0.28 / 1.8, v[1] * 0.15 / 1.8, v[2] * 0.2 / 1.8)),
+                 "inner-grown-through-outer": moved(0, lambda v: (v[0] * 9.0, v[1] * 9.0, v[2] * 11.5)),
+                 "inner-translated-through-outer": moved(0, lambda v: (2 * v[0] + 1.6, 2 * v[1] + 0.1, 2 * v[2] - 0.05)),
+                 "inner-crosses-middle": moved(0, lambda v: (v[0] + 0.45, v[1] + 0.02, v[2] + 0.03)),
+                 "middle-crosses-outer": moved(1, lambda v: (v[0] + 1.3, v[1] + 0.04, v[2] - 0.02))}
+    cplan = {"outer-shrunk-onto-inner": ("usual", "barrier-D1"), "inner-grown-through-outer": ("usual",), "inner-translated-through-outer": ("usual", "middle-isolated"),
+             "inner-crosses-middle": ("usual", "barrier-D1", "inner-isolated", "middle-isolated"), "middle-crosses-outer": ("usual", "outer-isolated", "middle-isolated")}
+    for cn, cm in crossings.items():
+        for pn in cplan[cn]:
+            m = dict(cm); m["cond"] = dict(cm["cond"]); m["cond"].update(patterns[pn])
+            out.append(("cross:%s:%s" % (cn, pn), m, None, None, dict(self=0, hm=1)))
     # non nested models: mesh/mesh intersections are not examined by selfCheck; dipoles are refused
     out.append(("siblings-clean", models.inclusions(1.0, [((0.45, 0, 0), 0.3, 1.0), ((-0.45, 0.1, 0), 0.3, 0.33)], 1.0, level=lvl), None, inner_dips(2, 0.2), dict(self=1, inner=0)))
     return out
 
-def write_geom_case(rng, gid, workdir, m, extra, dips):
-    mm = dict(m); mm["meshes"] = [(n, [tuple(c / GRID for c in snap(v)) for v in vs], ts) for n, vs, ts in m["meshes"]]
+def write_geom_case(rng, gid, workdir, m, extra, dips, order=None):
+    mm = dict(m)
+    if order is not None: mm["domains"] = [m["domains"][k] for k in order]
+    mm["meshes"] = [(n, [tuple(c / GRID for c in snap(v)) for v in vs], ts) for n, vs, ts in m["meshes"]]
     d = os.path.join(workdir, "g%d" % gid)
     g, c = models.write_model(mm, d, fmt="tri")
     vid = {}; V = []
@@ -264,6 +291,17 @@ def run_tool(bdir, info):
     if info["ndips"] is not None: cmd += ["-d", os.path.join(info["dir"], "dip.txt")]
     p = subprocess.run(cmd, stdout=subprocess.DEVNULL, stderr=subprocess.DEVNULL, timeout=300)
     return p.returncode
+
+def model_inside_flags(info, dips, inner_mesh=0):
+    """Interface::contains of the KNOWN innermost shell (mesh number inner_mesh of the generated model) for every dipole row,
+    by the float instance of coq/Geom/Contains.v - independent of Geometry::innermost_interface"""
+    V = [tuple(c / GRID for c in v) for v in info["V"]]; ts = info["meshes"][inner_mesh]
+    ints = [30, len(V), 1, 1, len(ts)] + [a for t in ts for a in t]
+    lines = [core.fcase("c12f", ints, [float(x) for x in p] + [x for q in V for x in q]) for p in dips]
+    out = []
+    for l in core.run_model(lines):
+        z, _f = core.fparse(l); out.append(z[1] if z and z[0] == 0 else -1)
+    return out
 
 def run_assemble(bdir, info):
     exe = os.path.join(bdir, "apps", "om_assemble")
@@ -409,12 +447,19 @@ def main(replay=None):
                 if z[0] != 0 or z[2] != expect["self"]:
                     ck.violation("geometry checks: " + name, "generated model `%s` (valid by construction): selfCheck/harness gives %s" % (name, z[:3]), dict(kind="geometry", geom=[name]))
                 continue
-            info = write_geom_case(grng, gid, ck.workdir, m, extra, dips)
+            info = write_geom_case(grng, gid, ck.workdir, m, extra, dips, order=expect.get("order"))
             rc, out, err = core.run_harness(hb, ["c12 13 %d" % gid], ck.workdir, tag="geom")
             z = [int(x) for x in out[0].split()] if out and not out[0].startswith("CRASH") else [-9]
             if z[0] != 0:
                 ck.violation("geometry case could not be run: " + name, "harness status %s on generated model %s" % (z, name), dict(kind="harness", geom=[name]), found_input=False); continue
             nested, selfc, chk, inner, nd = z[1], z[2], z[3], z[4], z[5]; flags = z[6:6 + nd]
+            flag_msgs = []
+            if dips is not None and nested and m["info"].get("kind") == "nested":
+                mflags = model_inside_flags(info, dips)
+                if mflags != flags:
+                    bad = [k for k, (a, b) in enumerate(zip(mflags, flags)) if a != b]
+                    flag_msgs.append("innermost_interface().contains differs from Interface::contains of the innermost shell (model Geom/Contains.v) on rows %s, e.g. row %d at %s: implementation %d, model %d" % (bad[:6], bad[0], dips[bad[0]], flags[bad[0]], mflags[bad[0]]))
+                flags = mflags
             if expect.get("diponly"):      # the clean base model: only the dipole part is of interest; model without meshes
                 ml = model_geom_line(gid, dict(info, V=[], meshes=[]), nested, flags)
             else:
@@ -424,7 +469,7 @@ def main(replay=None):
             mz = mcache[mkey]
             tool = run_tool(bdir, info)
             gstats.append(dict(name=name, nested=nested, selfCheck=selfc, check=chk, check_inner=inner, tool_exit=tool, model=mz[1:]))
-            msgs = []
+            msgs = list(flag_msgs)
             if not expect.get("diponly"):
                 # the same geometry loaded WITHOUT conductivities (as om_check_geom does): the model has no index / flag input at all
                 rc2, out2, _e2 = core.run_harness(hb, ["c12 13 %d 0" % gid], ck.workdir, tag="geom")
